@@ -188,8 +188,10 @@ theorem build_listing_invariant {φ : Type} [DecidableEq φ] (le : φ → φ →
 /-- **finding**: the current tree uses `list(self.root.glob("*.h5"))` unsorted — two directories with the
 same files, listed in different orders by the operating system, give different datasets -/
 theorem listing_order_current_violates :
-    selectFiles listingSortedCurrent (fun a b => decide (a ≤ b)) ⟨[(2 : Nat), 1], none, none, false, false, fun _ => true⟩ ≠
-      selectFiles listingSortedCurrent (fun a b => decide (a ≤ b)) ⟨[1, 2], none, none, false, false, fun _ => true⟩ := by
+    (selectFiles listingSortedCurrent (fun a b => decide (a ≤ b))
+        ⟨[(2 : Nat), 1], none, none, false, false, fun _ => true⟩).toOption ≠
+      (selectFiles listingSortedCurrent (fun a b => decide (a ≤ b))
+        ⟨[1, 2], none, none, false, false, fun _ => true⟩).toOption := by
   decide
 
 /-- `FastMRIDataset` / `CalgaryCampinasDataset` never receive a context or a user slice filter -/
